@@ -154,7 +154,89 @@ def case_config_change(p):
         h.close()
 
 
-CASES = {"config_change": case_config_change}
+BLE_ALPH = ["sub", "timer", "change:9", "change:10", "poll", "use", "drop"]
+
+
+def case_ble_writethrough(p):
+    """A BlePairing with a live session whose characteristic values change IN PLACE (notifications, polls) while the state number moves: every
+    write to the accessory cache carries the database as the pairing holds it at that moment (judged at each write against a fresh
+    serialisation), and what a restart reads back is what the pairing last held."""
+    import asyncio
+
+    from vt.env.blerig import BleRig
+
+    rig = BleRig(seed=p.get("seed", 0))
+    out = []
+    try:
+        pr = rig.pairing
+        cache = rig.controller._char_cache
+        orig = cache.async_create_or_update_map
+        stale = []
+
+        def spy(homekit_id, config_num, accessories, broadcast_key=None, state_num=None):
+            fresh = pr.accessories.serialize() if pr.accessories else None
+            if fresh is not None and accessories != fresh:
+                diff = [(a["aid"], c["iid"], c.get("value"), c2.get("value")) for a, a2 in zip(accessories, fresh) for s_, s2 in zip(a["services"], a2["services"])
+                        for c, c2 in zip(s_["characteristics"], s2["characteristics"]) if c != c2]
+                stale.append(diff[:3])
+            return orig(homekit_id, config_num, accessories, broadcast_key, state_num)
+
+        cache.async_create_or_update_map = spy
+        rig.run(pr.get_characteristics([(1, 9)]))
+        for k, sym in enumerate(p["history"]):
+            kind, _, arg = sym.partition(":")
+            link = rig.client if rig.client is not None and rig.client.is_connected else None
+            if kind == "sub":
+                rig.loop.create_task(pr.subscribe({(1, 9), (1, 10)}))
+            elif kind == "timer":
+                if rig.loop.next_timer() is not None:
+                    rig.loop.fire_next_timer()
+            elif kind == "change":
+                iid = int(arg)
+                ch = rig.acc.chars[iid]
+                ch.value = (not ch.value) if iid == 9 else ch.value + 1
+                if link is not None and iid in link.notifying:
+                    link.notifying[iid](iid, bytearray())
+            elif kind == "poll":
+                rig.loop.create_task(pr.async_populate_accessories_state(force_update=True))
+            elif kind == "use":
+                rig.loop.create_task(pr.get_characteristics([(1, 10)]))
+            elif kind == "drop":
+                if link is not None:
+                    link.peer_disconnect()
+            rig.loop.run_until_idle()
+            if stale:
+                out.append(("ble-cache:write-carries-values-the-pairing-no-longer-holds", {"history": p["history"][: k + 1], "written_vs_held": stale[0]}))
+                break
+        if not out:
+            new = type(pr)(rig.controller, dict(pr.pairing_data))
+            held = {(1, i): pr.accessories.aid(1).characteristics.iid(i).value for i in (9, 10)} if pr.accessories else {}
+            read = {(1, i): new.accessories.aid(1).characteristics.iid(i).value for i in (9, 10)} if new.accessories else {}
+            written_since = cache.get_map(pr.id)
+            if written_since is not None and read != held:
+                # (only what was written can be read back: values that changed after the last write are not demanded)
+                last = {(a["aid"], c["iid"]): c.get("value") for a in written_since["accessories"] for s_ in a["services"] for c in s_["characteristics"] if c["iid"] in (9, 10)}
+                if read != {k_: v for k_, v in last.items()}:
+                    out.append(("ble-cache:restart-reads-other-values-than-the-cache-holds", {"history": p["history"], "read": {str(a): b for a, b in read.items()}, "cached": {str(a): b for a, b in last.items()}}))
+    finally:
+        rig.close()
+    return out
+
+
+CASES = {"config_change": case_config_change, "ble_writethrough": case_ble_writethrough}
+
+
+def plan_ble(tier, seed):
+    n = 4 if tier == "quick" else 6
+    out = []
+    for k in range(1, n + 1):
+        for hist in itertools.product(BLE_ALPH, repeat=k):
+            if not any(h.startswith("change") or h == "poll" for h in hist):
+                continue
+            if hist.count("drop") > 1 or hist.count("sub") > 1:
+                continue
+            out.append({"transport": "ble", "history": list(hist), "seed": seed})
+    return out
 
 
 def plan(tier, seed):
